@@ -77,6 +77,18 @@ SAFE_METHODS = {
 PRIMS = (int, str, bool, float, bytes, type(None))
 
 
+class Lazy:
+    """an infinite iterator of itertools (repeat / cycle), consumed only through zip / islice"""
+
+    def __init__(self, kind, v):
+        self.kind, self.v = kind, v
+
+    def take(self, n):
+        if self.kind == "repeat":
+            return [self.v] * n
+        return [self.v[i % len(self.v)] for i in range(n)]
+
+
 class ConstEval:
     def __init__(self, model: Model, budget=2_000_000):
         self.M = model
@@ -180,6 +192,15 @@ class ConstEval:
 
     def exec_stmt(self, s, env, mod):
         self.tick()
+        if isinstance(s, ast.Expr) and isinstance(s.value, (ast.Yield, ast.YieldFrom)) and getattr(self, "_gen_items", None):
+            if isinstance(s.value, ast.Yield):
+                self._gen_items[-1].append(self.eval(s.value.value, env, mod) if s.value.value is not None else None)
+            else:
+                v = self.eval(s.value.value, env, mod)
+                if isinstance(v, Lazy) or not isinstance(v, (list, tuple, str, bytes, range, dict, set)):
+                    raise NotConstant("yield from a non-finite iterable")
+                self._gen_items[-1].extend(list(v))
+            return
         if isinstance(s, ast.Expr):
             if isinstance(s.value, ast.Constant):
                 return
@@ -458,6 +479,14 @@ class ConstEval:
         return out
 
     def call(self, e, env, mod):
+        # itertools summaries (lazy / infinite iterators as small objects; results are lists)
+        fname = e.func.id if isinstance(e.func, ast.Name) else e.func.attr if isinstance(e.func, ast.Attribute) and isinstance(e.func.value, ast.Name) and e.func.value.id == "itertools" else None
+        if fname in ("repeat", "cycle", "islice", "chain", "zip", "filterfalse", "starmap", "accumulate", "pairwise", "takewhile", "dropwhile") and not e.keywords and \
+                not (isinstance(e.func, ast.Name) and e.func.id in env and not isinstance(env[e.func.id], Opaque)):
+            r = self.itertools_call(fname, [self.eval(a, env, mod) for a in e.args if not isinstance(a, ast.Starred)] if not any(isinstance(a, ast.Starred) for a in e.args)
+                                    else [x for a in e.args for x in (list(self.eval(a.value, env, mod)) if isinstance(a, ast.Starred) else [self.eval(a, env, mod)])], mod)
+            if r is not NotImplemented:
+                return r
         f = self.eval(e.func, env, mod)
         args = []
         for a in e.args:
@@ -488,7 +517,73 @@ class ConstEval:
             return r
         raise NotConstant(f"call of {f!r}")
 
+    def itertools_call(self, name, args, mod):
+        fin = lambda x: list(x) if isinstance(x, (list, tuple, str, bytes, bytearray, range, dict, set, frozenset)) else None
+        if name == "repeat":
+            if len(args) == 1:
+                return Lazy("repeat", args[0])
+            if len(args) == 2 and isinstance(args[1], int):
+                return [args[0]] * max(args[1], 0)
+        if name == "cycle" and len(args) == 1 and fin(args[0]) is not None:
+            return Lazy("cycle", fin(args[0])) if fin(args[0]) else []
+        if name == "zip":
+            finite = [fin(a) for a in args if not isinstance(a, Lazy)]
+            if any(x is None for x in finite):
+                return NotImplemented
+            if not finite:
+                raise NotConstant("zip of infinite iterators only")
+            n = min(len(x) for x in finite)
+            cols = [a.take(n) if isinstance(a, Lazy) else fin(a)[:n] for a in args]
+            return [tuple(c[i] for c in cols) for i in range(n)]
+        if name == "islice" and 2 <= len(args) <= 4 and all(x is None or isinstance(x, int) for x in args[1:]):
+            a, b, c = (0, args[1], 1) if len(args) == 2 else (args[1] or 0, args[2], (args[3] if len(args) == 4 and args[3] else 1))
+            if isinstance(args[0], Lazy):
+                if b is None:
+                    raise NotConstant("islice of an infinite iterator without stop")
+                return args[0].take(b)[a:b:c]
+            if fin(args[0]) is not None:
+                return fin(args[0])[a:b:c]
+        if name == "chain" and all(fin(a) is not None for a in args):
+            return [x for a in args for x in fin(a)]
+        if name == "pairwise" and len(args) == 1 and fin(args[0]) is not None:
+            s_ = fin(args[0])
+            return list(zip(s_, s_[1:]))
+        if name == "filterfalse" and len(args) == 2 and fin(args[1]) is not None:
+            return [x for x in fin(args[1]) if not self.truth(self.apply_callable(args[0], [x], mod) if args[0] is not None else x)]
+        if name == "starmap" and len(args) == 2 and fin(args[1]) is not None:
+            return [self.apply_callable(args[0], list(x), mod) for x in fin(args[1])]
+        if name in ("takewhile", "dropwhile") and len(args) == 2 and fin(args[1]) is not None:
+            seq, k = fin(args[1]), 0
+            while k < len(seq) and self.truth(self.apply_callable(args[0], [seq[k]], mod)):
+                k += 1
+            return seq[:k] if name == "takewhile" else seq[k:]
+        return NotImplemented
+
+    def apply_callable(self, f, args, mod):
+        if isinstance(f, FuncRef):
+            return self.call_func(f, args)
+        if isinstance(f, Opaque) and f.what == "lambda":
+            params = [a.arg for a in f.node.args.args]
+            return self.eval(f.node.body, dict(zip(params, args)), f.mod or mod)
+        if callable(f) and f in SAFE_BUILTINS.values():
+            return f(*args)
+        raise NotConstant(f"call of {f!r}")
+
     def call_func(self, f: FuncRef, args, kw=None):
+        if any(isinstance(n, (ast.Yield, ast.YieldFrom)) for n in ast.walk(f.node)) and not getattr(self, "_in_gen_call", False):
+            # a generator function: its items, collected eagerly (sound when the generator body does not depend on what the consumer does between items)
+            self._gen_items = getattr(self, "_gen_items", [])
+            self._gen_items.append([])
+            self._in_gen_call = True
+            try:
+                try:
+                    self.call_func(f, args, kw)
+                finally:
+                    self._in_gen_call = False
+            finally:
+                items = self._gen_items.pop()
+            return items
+        self._in_gen_call = False
         node = f.node
         a = node.args
         params = [x.arg for x in a.posonlyargs + a.args]
